@@ -1,5 +1,6 @@
 import Driver.LuCheck
 import Driver.PivotEng
+import Driver.FactorEng
 
 def readAll (h : IO.FS.Stream) : IO String := do
   let mut acc := ""
@@ -14,4 +15,5 @@ def main (args : List String) : IO UInt32 := do
   match args with
   | ["lucheck"] => Drv.lucheckMain (← readAll stdin)
   | ["pivot"] => Drv.pivotMain (← readAll stdin)
+  | ["factor"] => Drv.factorMain (← readAll stdin)
   | _ => IO.eprintln "usage: sludrv <engine>   (input on stdin)"; return 2
